@@ -192,6 +192,20 @@ pub fn sweep_c04(tier: &str, seed: u64) -> (usize, Vec<String>) {
                 check_striped("avx2/32 fresh", &a.stripe(&s[..]), &s, &case, &mut f);
                 a.stripe_into(&s[..], &mut buf_a); check_striped("avx2/32 reused", &buf_a, &s, &case, &mut f);
             }
+            // other routes to a striped sequence, and the protein alphabet (21 symbols)
+            {
+                let enc = EncodedSequence::<Dna>::new(s.clone());
+                check_striped("EncodedSequence::to_striped", &enc.to_striped::<U32>(), &s, &case, &mut f);
+                check_striped("From<EncodedSequence>", &StripedSequence::<Dna, U32>::from(enc.clone()), &s, &case, &mut f);
+                let st = enc.to_striped::<U32>();
+                let m1: DenseMatrix<Nucleotide, U32> = st.clone().into_matrix(); let m2: DenseMatrix<Nucleotide, U32> = st.clone().into();
+                if m1 != *st.matrix() || m2 != *st.matrix() { f.push(fail("seq_into_matrix", "into_matrix / From<StripedSequence> differ from matrix()".into(), case.clone())); }
+                let ps: Vec<AminoAcid> = s.iter().enumerate().map(|(i, x)| Protein::symbols()[(x.as_index() * 5 + i) % 21]).collect();
+                let gp = Pipeline::<Protein, _>::generic();
+                check_striped("protein generic/32", &Stripe::<Protein, U32>::stripe(&gp, &ps[..]), &ps, &case, &mut f);
+                check_striped("protein dispatch/32", &Pipeline::<Protein, _>::dispatch().stripe(&ps[..]), &ps, &case, &mut f);
+                if let Ok(a) = Pipeline::<Protein, _>::avx2() { check_striped("protein avx2/32", &a.stripe(&ps[..]), &ps, &case, &mut f); }
+            }
             // sequences whose padding cells are NOT wildcards (StripedSequence::new accepts any matrix; `sample` fills the padding
             // with random symbols): indexing and counting must still agree with the linear sequence
             if l > 0 {
@@ -255,6 +269,25 @@ fn c05_alpha<A: Alphabet>(rng: &mut Rng, tier: &str, fails: &mut Vec<String>, n:
             chk!("dispatch", Pipeline::<A, _>::dispatch().encode(&inp));
             for (nm, arm) in arms() { chk!(nm, Pipeline::<A, Dispatch>::with_backend(arm.clone()).encode(&inp)); }
             chk!("EncodedSequence::encode", EncodedSequence::<A>::encode(&inp));
+            // other entry points: FromStr, encode_into with a caller buffer (every backend), and the container API of the result
+            if let Ok(txt) = std::str::from_utf8(&inp) { chk!("FromStr", txt.parse::<EncodedSequence<A>>()); }
+            macro_rules! into { ($name:expr, $p:expr) => {{ let p = $p; chk!(concat!($name, "/encode_into"), { let mut dst = vec![A::default_symbol(); inp.len()]; p.encode_into(&inp, &mut dst).map(|_| EncodedSequence::<A>::new(dst)) }); }}; }
+            into!("generic", Pipeline::<A, _>::generic()); into!("sse2", Pipeline::<A, _>::sse2().unwrap()); into!("dispatch", Pipeline::<A, _>::dispatch());
+            if let Ok(p) = Pipeline::<A, _>::avx2() { into!("avx2", p); }
+            if let (Ok(w), Ok(e)) = (&want, EncodedSequence::<A>::encode(&inp)) {
+                *n += 1;
+                let syms: Vec<A::Symbol> = w.iter().map(|&i| A::symbols()[i]).collect();
+                let mut bad_api = Vec::new();
+                if e.len() != w.len() || e.is_empty() != w.is_empty() { bad_api.push("len/is_empty"); }
+                if (0..w.len()).any(|i| e[i] != syms[i]) { bad_api.push("Index"); }
+                if (&e).into_iter().cloned().collect::<Vec<_>>() != syms { bad_api.push("IntoIterator"); }
+                if EncodedSequence::<A>::from(syms.clone()).iter().cloned().collect::<Vec<_>>() != syms { bad_api.push("From<Vec>"); }
+                if syms.iter().cloned().collect::<EncodedSequence<A>>().iter().cloned().collect::<Vec<_>>() != syms { bad_api.push("FromIterator"); }
+                if !(e == syms) || (!syms.is_empty() && e == syms[..syms.len() - 1].to_vec()) { bad_api.push("PartialEq"); }
+                if !EncodedSequence::<A>::default().is_empty() { bad_api.push("Default"); }
+                let a: &[A::Symbol] = e.as_ref(); if a != &syms[..] { bad_api.push("AsRef"); }
+                if !bad_api.is_empty() { fails.push(fail("encseq_api", format!("EncodedSequence {:?} disagree(s) with the symbols", bad_api), case.clone())); }
+            }
             if fails.len() > 3 { return; }
         }
     }
@@ -314,6 +347,18 @@ pub fn sweep_c07(tier: &str, seed: u64) -> (usize, Vec<String>) {
             if nrows > 0 { if m != Some(best) { fails.push(fail("scores_max", format!("StripedScores::max = {:?}, largest cell {}", m, best), case.clone())); }
                 if let Some(off) = am { let (r, c) = (off % nrows, off / nrows); if c >= 32 || rows[r][c] != best { fails.push(fail("scores_argmax", format!("StripedScores::argmax offset {} does not designate the maximum", off), case.clone())); } } }
         } else { fails.push(fail("scores_max", format!("panic at {}", panic_loc()), case.clone())); }
+        // ... also exactly AT the maximum (the set of maximal cells), for the method and for every pipeline
+        if nrows > 0 {
+            n += 1;
+            let want_max: Vec<usize> = { let mut v = Vec::new(); for (i, r) in rows.iter().enumerate() { for j in 0..32 { if r[j] >= best { v.push(j * nrows + i); } } } v.sort(); v };
+            match catch_unwind(AssertUnwindSafe(|| sc.threshold(best))) { Ok(mut o) => { o.sort(); if o != want_max { fails.push(fail("scores_threshold", format!("StripedScores::threshold(max) returns {} offsets, expected {}", o.len(), want_max.len()), case.clone())); } } Err(_) => fails.push(fail("scores_threshold", format!("panic at {}", panic_loc()), case.clone())) }
+        }
+        // StripedScores::threshold: offsets col*rows+row of exactly the cells >= t (each once, any order)
+        n += 1;
+        match catch_unwind(AssertUnwindSafe(|| sc.threshold(t))) {
+            Ok(mut offs) => { offs.sort(); let mut want: Vec<usize> = want_thr.iter().map(|(r, c)| c * nrows + r).collect(); want.sort(); if offs != want { fails.push(fail("scores_threshold", format!("StripedScores::threshold returns {} offsets, expected {}", offs.len(), want.len()), case.clone())); } }
+            Err(_) => fails.push(fail("scores_threshold", format!("panic at {}", panic_loc()), case.clone())),
+        }
         // u8
         let hi = rep % 2 == 1;
         let mut rows8: Vec<Vec<u8>> = (0..nrows).map(|_| (0..32).map(|_| if hi { rng.below(256) as u8 } else { rng.below(120) as u8 }).collect()).collect();
@@ -554,6 +599,10 @@ pub fn sweep_c09(tier: &str, seed: u64) -> (usize, Vec<String>) {
                 let ok = FrequencyMatrix::<Dna>::new(fm.matrix().clone()).is_ok();
                 let mut bad = fm.matrix().clone(); bad[m - 1][0] += 0.5;
                 if !ok || FrequencyMatrix::<Dna>::new(bad).is_ok() { f.push(fail("pwm_freq_new", "row-sum validation wrong".into(), case.clone())); }
+                for (what, v) in [("NaN", f32::NAN), ("+inf", f32::INFINITY)] {
+                    let mut nn = fm.matrix().clone(); nn[rep % m][rep % 5] = v; if what == "+inf" { nn[rep % m][(rep + 1) % 5] = f32::NEG_INFINITY; }
+                    if FrequencyMatrix::<Dna>::new(nn).is_ok() { f.push(fail("pwm_freq_new", format!("a row whose sum is not a number ({}) was accepted", what), case.clone())); }
+                }
             }
             // min/max score bound every wildcard-free window
             let (lo, hi) = (sm1.min_score(), sm1.max_score());
@@ -624,6 +673,30 @@ pub fn sweep_c19(tier: &str, seed: u64) -> (usize, Vec<String>) {
                        // clone_from / clone_into onto longer, shorter and equally long destinations
                        for extra in [0usize, 1, 3] { let mut c6 = DenseMatrix::<$t, $c>::new(model.len() + extra); c6.fill($mk(77)); c6.clone_from(&m); if c6 != m || c6.rows() != m.rows() || c6.iter().count() != model.len() { panic!("clone_from onto a matrix with {} more rows does not give an equal matrix", extra); } }
                        if model.len() > 1 { let mut c7 = DenseMatrix::<$t, $c>::new(model.len() - 1); c7.clone_from(&m); if c7 != m || c7.rows() != m.rows() { panic!("clone_from onto a shorter matrix does not give an equal matrix"); } }
+                       // adaptors that reach nth / nth_back / last on the row iterators
+                       if !model.is_empty() {
+                           let k = rng.below(model.len());
+                           if m.iter().nth(k).map(|r| r.to_vec()) != model.iter().nth(k).cloned() { panic!("iter().nth({}) wrong", k); }
+                           if m.iter().rev().nth(k).map(|r| r.to_vec()) != model.iter().rev().nth(k).cloned() { panic!("iter().rev().nth({}) wrong", k); }
+                           if m.iter().last().map(|r| r.to_vec()) != model.last().cloned() { panic!("iter().last() wrong"); }
+                           let a: Vec<Vec<$t>> = m.iter().rev().step_by(2).map(|r| r.to_vec()).collect(); let b: Vec<Vec<$t>> = model.iter().rev().step_by(2).cloned().collect(); if a != b { panic!("iter().rev().step_by(2) wrong"); }
+                           let a: Vec<Vec<$t>> = m.iter().step_by(3).map(|r| r.to_vec()).collect(); let b: Vec<Vec<$t>> = model.iter().step_by(3).cloned().collect(); if a != b { panic!("iter().step_by(3) wrong"); }
+                           let mut it = m.iter(); let mut mi = model.iter(); for s_ in 0..model.len() { let (x, y) = if (s_ + k) % 2 == 0 { (it.next(), mi.next()) } else { (it.next_back(), mi.next_back()) }; if x.map(|r| r.to_vec()) != y.cloned() { panic!("mixed next / next_back wrong at step {}", s_); } }
+                           let mut c10 = m.clone(); if let Some(row) = c10.iter_mut().rev().nth(k) { row[0] = $mk(9); } if c10[model.len() - 1 - k][0] != $mk(9) { panic!("iter_mut().rev().nth({}) wrote to the wrong row", k); }
+                       }
+                       // the row iterators are ExactSizeIterator + DoubleEndedIterator: adaptors that rely on an exact size_hint
+                       // (skip(n).len(), skip(n).rev(), zip(..).rev(), rposition) must work as on the model
+                       {
+                           let k = if model.is_empty() { 0 } else { rng.below(model.len() + 1) };
+                           if m.iter().skip(k).len() != model.iter().skip(k).len() { panic!("iter().skip({}).len() wrong", k); }
+                           let a: Vec<Vec<$t>> = m.iter().skip(k).rev().map(|r| r.to_vec()).collect(); let b: Vec<Vec<$t>> = model.iter().skip(k).rev().cloned().collect(); if a != b { panic!("iter().skip({}).rev() wrong", k); }
+                           if m.iter().size_hint() != (model.len(), Some(model.len())) { panic!("iter().size_hint() = {:?} for {} rows", m.iter().size_hint(), model.len()); }
+                       }
+                       // IntoIterator for &m / &mut m, with_capacity, reserve
+                       let mut k = 0; for row in &m { if row != &model[k][..] { panic!("IntoIterator for &DenseMatrix disagrees at row {}", k); } k += 1; } if k != model.len() { panic!("IntoIterator for &DenseMatrix yields {} rows", k); }
+                       let mut c8 = m.clone(); let mut k = 0; for row in &mut c8 { row[cols - 1] = $mk(5); k += 1; } if k != model.len() || (0..model.len()).any(|i| c8[i][cols - 1] != $mk(5)) { panic!("IntoIterator for &mut DenseMatrix does not visit every row"); }
+                       let wc = DenseMatrix::<$t, $c>::with_capacity(model.len(), model.len() + 3); if wc.rows() != model.len() || wc.capacity() < model.len() + 3 || wc.iter().any(|r| r.iter().any(|x| *x != <$t>::default())) { panic!("with_capacity: wrong rows / capacity / contents"); }
+                       let mut c9 = m.clone(); c9.reserve(17); if c9 != m || c9.capacity() < model.len() + 17 { panic!("reserve changed the matrix or did not reserve"); }
                        trace.push("clone/eq".into()); }
                 5 => { for (i, row) in m.iter_mut().enumerate() { row[0] = $mk(i % 100); } for (i, r) in model.iter_mut().enumerate() { r[0] = $mk(i % 100); } trace.push("iter_mut".into()); }
                 _ => { let rows: Vec<Vec<$t>> = (0..rng.below(5)).map(|_| (0..cols).map(|_| $mk(rng.below(200))).collect()).collect(); m = DenseMatrix::<$t, $c>::from_rows(rows.iter()); model = rows; trace.push("from_rows".into()); }
